@@ -516,8 +516,7 @@ def mutate_future(w, mut):
                         b['close'] = p
                         b['high'] = max(x['high'] for x in old)
                         b['low'] = min(x['low'] for x in old)
-                        b['volume'] = float(sum(x['volume'] for x in old))
-                        b['total_turnover'] = float(sum(x['total_turnover'] for x in old))
+                        # the day bar's volume / turnover stay: the auction bar of the reference data source carries them (see ASSUMPTIONS)
                         if fut:
                             b['settlement'] = min(max(b['settlement'], b['low']), b['high'])
                     out.extend(old)
